@@ -132,16 +132,26 @@ Proof.
   destruct (find_sig g s); discriminate.
 Qed.
 
+(* the declared total length read back by ANY successful decode of the message *)
+Lemma encoded_declared dd : forall ign json m info m',
+  encode_message ign json = Ok m ->
+  decode_message dd None info false (m_bytes m) = Ok m' ->
+  prop_get Nlength (m_props m') = Some (PUint (Z.of_nat (length (m_bytes m)))).
+Proof.
+  intros ign json m info m' Henc Hdec.
+  destruct (decoded_length _ _ _ _ Hdec) as (v & rest & Hr & Hp).
+  destruct (total_length_exact _ _ _ Henc) as (len & rest' & _ & _ & _ & Hl & Hr' & _).
+  rewrite Hr' in Hr. injection Hr as <- _. rewrite Hp. f_equal. f_equal. lia.
+Qed.
+
 (* ------------------------------------------------------------------------ *)
 (* H1-H3 for the concrete decoder, on every message the encoder produces     *)
 (* ------------------------------------------------------------------------ *)
-Section Discharge.
+Section DischargeDec.
 Variable dd : list (pname * pvalue) -> reader -> result (bits * reader).
 Hypothesis dd_prefix : forall p r b r', dd p r = Ok (b, r') -> r = b ++ r'.
 Hypothesis dd_suffix : forall p r b r' s, dd p r = Ok (b, r') -> dd p (r ++ s) = Ok (b, r' ++ s).
 Hypothesis dd_cuts : forall p, cuts (dd p).
-Variable view : message -> list N.
-Variable tdp : msginfo -> result unit.
 
 (* the encoder's output, decoded without signature search (as the scanner calls
    the decoder): one and the same message record whatever follows *)
@@ -163,36 +173,6 @@ Proof.
   split; [exact Hf|]. exists m'. split; [|auto].
   pose proof Hdec as Hn. rewrite (decode_sig_none _ _ _ _ _ Hf) in Hn.
   destruct (decode_span dd dd_prefix dd_suffix _ _ _ _ _ Hn) as [Hall _]. exact Hall.
-Qed.
-
-(* the declared total length read back by ANY successful decode of the message *)
-Lemma encoded_declared : forall ign json m info m',
-  encode_message ign json = Ok m ->
-  decode_message dd None info false (m_bytes m) = Ok m' ->
-  prop_get Nlength (m_props m') = Some (PUint (Z.of_nat (length (m_bytes m)))).
-Proof.
-  intros ign json m info m' Henc Hdec.
-  destruct (decoded_length _ _ _ _ Hdec) as (v & rest & Hr & Hp).
-  destruct (total_length_exact _ _ _ Henc) as (len & rest' & _ & _ & _ & Hl & Hr' & _).
-  rewrite Hr' in Hr. injection Hr as <- _. rewrite Hp. f_equal. f_equal. lia.
-Qed.
-
-(* H1 + H2 (full mode): suffix independent, consumes exactly the message, hook quiet *)
-Theorem encoded_full_ok : forall ign json m,
-  encode_message ign json = Ok m ->
-  Forall sec_fits (m_sections m) -> Forall desc_fill_ok (m_sections m) -> data_ok dd [] (m_sections m) ->
-  quiet_props (props_after (m_sections m) []) = true ->
-  full_ok (frame_process dd view false) (frame_hook tdp) (m_bytes m).
-Proof.
-  intros ign json m Henc Hfits Hdfs Hdat Hq.
-  destruct (encoded_full_decode _ _ _ Henc Hfits Hdfs Hdat) as (_ & m' & Hall & _ & Hb & Hp).
-  pose proof (Hall []) as H0. rewrite app_nil_r in H0.
-  pose proof (encoded_declared _ _ _ _ _ Henc H0) as Hlen.
-  exists (MsgInfo (length (m_bytes m)) (length (m_bytes m)) (meta_of view m')). split; [|split; [reflexivity|]].
-  - intros t. unfold frame_process. rewrite (Hall t). cbn [bind]. unfold msginfo_of. rewrite Hlen, Hb.
-    f_equal. f_equal. lia.
-  - unfold frame_hook. cbn [mi_meta]. unfold meta_of. rewrite Hp. unfold quiet_props in Hq.
-    destruct (tabledef_keys _) as [[dc ns]|]; [|discriminate]. apply negb_true_iff in Hq. rewrite Hq. reflexivity.
 Qed.
 
 (* the metadata-only decode of the encoder's output, without signature search *)
@@ -223,6 +203,34 @@ Proof.
   - lia.
 Qed.
 
+End DischargeDec.
+
+Section Discharge.
+Variable dd : list (pname * pvalue) -> reader -> result (bits * reader).
+Hypothesis dd_prefix : forall p r b r', dd p r = Ok (b, r') -> r = b ++ r'.
+Hypothesis dd_suffix : forall p r b r' s, dd p r = Ok (b, r') -> dd p (r ++ s) = Ok (b, r' ++ s).
+Hypothesis dd_cuts : forall p, cuts (dd p).
+Variable view : message -> list N.
+Variable tdp : msginfo -> result unit.
+
+(* H1 + H2 (full mode): suffix independent, consumes exactly the message, hook quiet *)
+Theorem encoded_full_ok : forall ign json m,
+  encode_message ign json = Ok m ->
+  Forall sec_fits (m_sections m) -> Forall desc_fill_ok (m_sections m) -> data_ok dd [] (m_sections m) ->
+  quiet_props (props_after (m_sections m) []) = true ->
+  full_ok (frame_process dd view false) (frame_hook tdp) (m_bytes m).
+Proof.
+  intros ign json m Henc Hfits Hdfs Hdat Hq.
+  destruct (encoded_full_decode dd dd_prefix dd_suffix _ _ _ Henc Hfits Hdfs Hdat) as (_ & m' & Hall & _ & Hb & Hp).
+  pose proof (Hall []) as H0. rewrite app_nil_r in H0.
+  pose proof (encoded_declared dd _ _ _ _ _ Henc H0) as Hlen.
+  exists (MsgInfo (length (m_bytes m)) (length (m_bytes m)) (meta_of view m')). split; [|split; [reflexivity|]].
+  - intros t. unfold frame_process. rewrite (Hall t). cbn [bind]. unfold msginfo_of. rewrite Hlen, Hb.
+    f_equal. f_equal. lia.
+  - unfold frame_hook. cbn [mi_meta]. unfold meta_of. rewrite Hp. unfold quiet_props in Hq.
+    destruct (tabledef_keys _) as [[dc ns]|]; [|discriminate]. apply negb_true_iff in Hq. rewrite Hq. reflexivity.
+Qed.
+
 (* H3 (metadata-only mode): suffix independent, declared length = actual length *)
 Theorem encoded_info_ok : forall ign json m,
   encode_message ign json = Ok m ->
@@ -230,12 +238,226 @@ Theorem encoded_info_ok : forall ign json m,
   info_ok (frame_process dd view true) (m_bytes m).
 Proof.
   intros ign json m Henc Hfits Hdfs Hdat.
-  destruct (encoded_info_decode _ _ _ Henc Hfits Hdfs Hdat) as (mi & Hall & _ & Hc).
+  destruct (encoded_info_decode dd dd_prefix dd_suffix dd_cuts _ _ _ Henc Hfits Hdfs Hdat) as (mi & Hall & _ & Hc).
   pose proof (Hall []) as H0. rewrite app_nil_r in H0.
-  pose proof (encoded_declared _ _ _ _ _ Henc H0) as Hlen.
+  pose proof (encoded_declared dd _ _ _ _ _ Henc H0) as Hlen.
   exists (MsgInfo (length (m_bytes mi)) (length (m_bytes m)) (meta_of view mi)). split; [|reflexivity].
   intros t. unfold frame_process. rewrite (Hall t). cbn [bind]. unfold msginfo_of. rewrite Hlen.
   f_equal. f_equal. lia.
 Qed.
 
 End Discharge.
+
+(* ------------------------------------------------------------------------ *)
+(* the last four octets of a well-formed encoded message are '7777'          *)
+(* ------------------------------------------------------------------------ *)
+Lemma encoded_ends_7777 ign json m :
+  encode_message ign json = Ok m -> Forall sec_fits (m_sections m) ->
+  skipn (length (m_bytes m) - 4) (m_bytes m) = sig_7777.
+Proof.
+  intros Henc Hfits.
+  destruct (starts_BUFR_ends_7777 _ _ _ Henc) as (s0 & mid & s5 & l0 & l5 & Hsecs & _ & Hl5 & _ & _ & _ & Hlast).
+  apply Hlast. clear Hlast.
+  destruct (encode_message_inv (fun _ r => Ok ([], r)) _ _ _ Henc)
+    as (l & len & ed & json' & e & props & secs_rest & Hinv). cbv zeta in Hinv.
+  destruct Hinv as (Hs & _ & _ & _ & Hsec).
+  pose proof (encode_sections_ok ign definitions [1;2;3;4;5;6]%N definitions_sl_first _ _ _ _ _ _ _ Hs)
+    as (e' & new & _ & Enew & _ & _ & _ & _ & e0 & c & vs & props_k & sec & new0 & _ & _ & Hc & Hend & Hlen & Hes & Hnew).
+  apply app_inv_head in Enew. subst secs_rest. subst new.
+  pose proof (definitions_end c Hc Hend) as Ec. subst c.
+  destruct (encode_section5 _ _ _ _ _ _ _ (eq_sym Hlen) Hes) as (l' & -> & _ & _ & Hv).
+  destruct (encode_section_whole _ _ _ _ _ _ _ _ (eq_refl : sl_first (s_params section5) = true) Hes)
+    as (_ & _ & _ & _ & _ & Hpar).
+  assert (Etl : new0 ++ [sec] = mid ++ [s5]).
+  { rewrite Hsecs in Hsec. exact (eq_sym (f_equal (@tl _) Hsec)). }
+  apply app_inj_tail in Etl as [_ <-].
+  rewrite Hv in Hl5. cbn [prop_get] in Hl5. change (pname_beq Nstop_signature Nstop_signature) with true in Hl5.
+  injection Hl5 as <-.
+  rewrite Hsec in Hfits. rewrite Forall_forall in Hfits.
+  specialize (Hfits sec ltac:(right; apply in_or_app; right; left; reflexivity)).
+  unfold sec_fits in Hfits. rewrite Hpar, Hv in Hfits. cbn [map snd section5 s_params fits_layout] in Hfits.
+  change (fixed_param (mkP Nstop_signature 32 TBytes (Some [55;55;55;55]%N) false)) with true in Hfits. cbv iota in Hfits.
+  apply andb_true_iff in Hfits as [Hfits _]. unfold fit_fixed in Hfits. cbn [p_type p_expected] in Hfits.
+  apply andb_true_iff in Hfits as [_ Hfits]. apply bytes_eqb_eq in Hfits. exact Hfits.
+Qed.
+
+Section Discharge2.
+Variable dd : list (pname * pvalue) -> reader -> result (bits * reader).
+Hypothesis dd_prefix : forall p r b r', dd p r = Ok (b, r') -> r = b ++ r'.
+Hypothesis dd_suffix : forall p r b r' s, dd p r = Ok (b, r') -> dd p (r ++ s) = Ok (b, r' ++ s).
+Hypothesis dd_cuts : forall p, cuts (dd p).
+Variable view : message -> list N.
+Variable tdp : msginfo -> result unit.
+Variable filt : msginfo -> result bool.
+
+(* the filter's verdict on the metadata-only decode of a byte string *)
+Definition verdict (s : list byte) : option bool :=
+  match frame_process dd view true s with
+  | Ok mi => match filt mi with Ok b => Some b | Err _ => None end
+  | Err _ => None
+  end.
+
+(* with a filter: the verdict is taken on the metadata-only message, which is
+   the same whatever follows; a matching message is then decoded in full; a
+   non-matching one is advanced over by sections 0..4, and what is left of it
+   ('7777') holds no 'B' *)
+Theorem encoded_filt_ok : forall ign json m io b,
+  encode_message ign json = Ok m ->
+  Forall sec_fits (m_sections m) -> Forall desc_fill_ok (m_sections m) -> data_ok dd [] (m_sections m) ->
+  verdict (m_bytes m) = Some b ->
+  (io = false -> b = true -> quiet_props (props_after (m_sections m) []) = true) ->
+  filt_ok (frame_process dd view false) (frame_process dd view true) filt (frame_hook tdp) io (m_bytes m) b.
+Proof.
+  intros ign json m io b Henc Hfits Hdfs Hdat Hv Hq.
+  destruct (encoded_info_decode dd dd_prefix dd_suffix dd_cuts _ _ _ Henc Hfits Hdfs Hdat) as (mi & Hall & _ & Hc).
+  pose proof (Hall []) as H0. rewrite app_nil_r in H0.
+  pose proof (encoded_declared dd _ _ _ _ _ Henc H0) as Hlen.
+  assert (Hp : forall t, frame_process dd view true (m_bytes m ++ t) =
+                         Ok (MsgInfo (length (m_bytes mi)) (length (m_bytes m)) (meta_of view mi))).
+  { intros t. unfold frame_process. rewrite (Hall t). cbn [bind]. unfold msginfo_of. rewrite Hlen.
+    f_equal. f_equal. lia. }
+  exists (MsgInfo (length (m_bytes mi)) (length (m_bytes m)) (meta_of view mi)). split; [exact Hp|].
+  unfold verdict in Hv. specialize (Hp []). rewrite app_nil_r in Hp. rewrite Hp in Hv.
+  destruct (filt _) as [b'|] eqn:Ef; [|discriminate]. injection Hv as ->. split; [reflexivity|].
+  destruct io; [reflexivity|]. destruct b.
+  - apply (encoded_full_ok dd dd_prefix dd_suffix view tdp ign json m Henc Hfits Hdfs Hdat). apply Hq; reflexivity.
+  - cbn [mi_consumed]. rewrite Hc. split; [lia|].
+    rewrite (encoded_ends_7777 _ _ _ Henc Hfits). cbn. intuition discriminate.
+Qed.
+End Discharge2.
+
+(* ------------------------------------------------------------------------ *)
+(* executable well-formedness conditions, streams of encoded messages        *)
+(* ------------------------------------------------------------------------ *)
+Lemma nosigb_sound s : nosigb s = true -> nosig s.
+Proof. unfold nosigb. destruct (find_from Stream.sig s 0) eqn:E; [discriminate|]. intros _. apply nosig_dec, E. Qed.
+
+(* the hypotheses of C04_frame_roundtrip, executable *)
+Definition msg_wfb (dd : list (pname * pvalue) -> reader -> result (bits * reader)) (m : message) : bool :=
+  forallb sec_fitsb (m_sections m) && forallb desc_fill_okb (m_sections m) && data_okb dd [] (m_sections m).
+
+(* not a table-definition message: data_category <> 11 or n_subsets = 0
+   (read off the values of sections 1 and 3) *)
+Definition msg_quietb (m : message) : bool := quiet_props (props_after (m_sections m) []).
+
+(* an item of a stream: the encoder's inputs (ignore_declared_length, the
+   message as nested values) and the separator bytes that follow the message *)
+Definition enc_item := (bool * list (list pvalue) * list byte)%type.
+Definition item_msg (it : enc_item) : result message := encode_message (fst (fst it)) (snd (fst it)).
+Definition item_bytes (it : enc_item) : list byte :=
+  match item_msg it with Ok m => m_bytes m | Err _ => [] end.
+Definition stream_of (items : list enc_item) : list (list byte * list byte) :=
+  map (fun it => (item_bytes it, snd it)) items.
+
+(* the item encodes, the message is well formed, (in full mode) it is not a
+   table-definition message, the separator holds no 'BUFR' *)
+Definition item_okb (dd : list (pname * pvalue) -> reader -> result (bits * reader)) (io : bool)
+    (it : enc_item) : bool :=
+  match item_msg it with
+  | Ok m => msg_wfb dd m && (io || msg_quietb m)
+  | Err _ => false
+  end && nosigb (snd it).
+
+Lemma map_fst_stream_of items : map fst (stream_of items) = map item_bytes items.
+Proof. unfold stream_of. rewrite map_map. reflexivity. Qed.
+
+Lemma stream_ok_of (P : list byte -> Prop) (ok : enc_item -> bool) items :
+  (forall it, ok it = true -> starts_sig (item_bytes it) /\ nosig (snd it) /\ P (item_bytes it)) ->
+  forallb ok items = true -> stream_ok P (stream_of items).
+Proof.
+  intros H Hall. unfold stream_ok, stream_of. rewrite Forall_map. apply Forall_forall. intros it Hin.
+  rewrite forallb_forall in Hall. cbn [fst snd]. apply H, Hall, Hin.
+Qed.
+
+Section EndToEnd.
+Variable dd : list (pname * pvalue) -> reader -> result (bits * reader).
+Hypothesis dd_prefix : forall p r b r', dd p r = Ok (b, r') -> r = b ++ r'.
+Hypothesis dd_suffix : forall p r b r' s, dd p r = Ok (b, r') -> dd p (r ++ s) = Ok (b, r' ++ s).
+Hypothesis dd_cuts : forall p, cuts (dd p).
+Variable view : message -> list N.
+Variable tdp : msginfo -> result unit.
+Variable filt : msginfo -> result bool.
+
+Lemma msg_wfb_sound m : msg_wfb dd m = true ->
+  Forall sec_fits (m_sections m) /\ Forall desc_fill_ok (m_sections m) /\ data_ok dd [] (m_sections m).
+Proof.
+  unfold msg_wfb. intros H. apply andb_true_iff in H as [H H3]. apply andb_true_iff in H as [H1 H2].
+  split; [apply sec_fitsb_sound, H1|]. split; [apply desc_fill_okb_all, H2|].
+  apply (data_okb_sound dd dd_prefix dd_suffix), H3.
+Qed.
+
+Lemma encoded_starts_sig ign json m : encode_message ign json = Ok m -> msg_wfb dd m = true ->
+  starts_sig (m_bytes m).
+Proof.
+  intros Henc Hwf. destruct (msg_wfb_sound _ Hwf) as (Hfits & Hdfs & Hdat).
+  destruct (encoded_full_decode dd dd_prefix dd_suffix _ _ _ Henc Hfits Hdfs Hdat) as (Hf & _).
+  apply find_sig_0_starts, starts_with_split in Hf. exact Hf.
+Qed.
+
+Lemma item_ok_valid io it : item_okb dd io it = true ->
+  starts_sig (item_bytes it) /\ nosig (snd it) /\
+  valid_msg (frame_process dd view false) (frame_process dd view true) (frame_hook tdp) io (item_bytes it).
+Proof.
+  unfold item_okb, item_bytes. intros H. apply andb_true_iff in H as [H Hsep].
+  destruct (item_msg it) as [m|] eqn:Em; [|discriminate]. apply andb_true_iff in H as [Hwf Hq].
+  destruct (msg_wfb_sound _ Hwf) as (Hfits & Hdfs & Hdat).
+  split; [eapply encoded_starts_sig; eassumption|]. split; [apply nosigb_sound, Hsep|].
+  destruct io; cbn [valid_msg].
+  - eapply (encoded_info_ok dd dd_prefix dd_suffix dd_cuts view); eassumption.
+  - eapply (encoded_full_ok dd dd_prefix dd_suffix view tdp); eassumption.
+Qed.
+
+(* C11 end to end: the concrete scanner on a stream of encoded messages and
+   separators yields exactly the messages, in order, with their exact bytes *)
+Theorem e2e_scan_exact : forall io coe sep0 items,
+  nosigb sep0 = true -> forallb (item_okb dd io) items = true ->
+  frame_generate dd view tdp filt io coe false (sep0 ++ assemble (stream_of items))
+  = (map item_bytes items, None).
+Proof.
+  intros io coe sep0 items H0 Hall. unfold frame_generate.
+  rewrite scan_exact; [rewrite map_fst_stream_of; reflexivity|apply nosigb_sound, H0|].
+  eapply stream_ok_of; [|exact Hall]. apply item_ok_valid.
+Qed.
+
+Theorem e2e_concat_pieces : forall io coe sep0 items,
+  nosigb sep0 = true -> forallb (item_okb dd io) items = true ->
+  concat (fst (frame_generate dd view tdp filt io coe false (sep0 ++ assemble (stream_of items))))
+  = concat (map item_bytes items).
+Proof. intros. rewrite e2e_scan_exact by assumption. reflexivity. Qed.
+
+(* with a filter expression *)
+Definition matches (s : list byte) : bool :=
+  match verdict dd view filt s with Some true => true | _ => false end.
+
+(* as item_okb, and the filter evaluates (to either verdict) on the
+   metadata-only message; only a MATCHING message is handed to the table hook *)
+Definition item_filt_okb (io : bool) (it : enc_item) : bool :=
+  match item_msg it with
+  | Ok m => msg_wfb dd m &&
+            match verdict dd view filt (m_bytes m) with
+            | Some b => io || negb b || msg_quietb m
+            | None => false
+            end
+  | Err _ => false
+  end && nosigb (snd it).
+
+Theorem e2e_scan_filter : forall io coe sep0 items,
+  nosigb sep0 = true -> forallb (item_filt_okb io) items = true ->
+  frame_generate dd view tdp filt io coe true (sep0 ++ assemble (stream_of items))
+  = (filter matches (map item_bytes items), None).
+Proof.
+  intros io coe sep0 items H0 Hall. unfold frame_generate.
+  rewrite (scan_filter _ _ _ _ io coe matches); [rewrite map_fst_stream_of; reflexivity|apply nosigb_sound, H0|].
+  eapply stream_ok_of; [|exact Hall]. clear Hall H0. intros it H.
+  unfold item_filt_okb, item_bytes in *. apply andb_true_iff in H as [H Hsep].
+  destruct (item_msg it) as [m|] eqn:Em; [|discriminate]. apply andb_true_iff in H as [Hwf Hq].
+  destruct (msg_wfb_sound _ Hwf) as (Hfits & Hdfs & Hdat).
+  split; [eapply encoded_starts_sig; eassumption|]. split; [apply nosigb_sound, Hsep|].
+  destruct (verdict dd view filt (m_bytes m)) as [b|] eqn:Ev; [|discriminate].
+  assert (Em' : matches (m_bytes m) = b) by (unfold matches; rewrite Ev; destruct b; reflexivity).
+  rewrite Em'.
+  eapply (encoded_filt_ok dd dd_prefix dd_suffix dd_cuts view tdp filt); try eassumption.
+  intros -> ->. exact Hq.
+Qed.
+
+End EndToEnd.
